@@ -3,7 +3,7 @@ CONSTANTS
   Ident = "kitty"
   Style3 = "block"
   Bits = 3
-  Fams = {"Q", "T"}
+  Fams = {"R", "T"}
   WithBad = TRUE
   WithInv = FALSE
   Dyn = FALSE
